@@ -73,6 +73,11 @@ def make_cases(tbl, seed, k_random, k_corrupt):
         rng = random.Random('C09/%d/%d' % (seed, i))
         payloads = [('zeros', bytes(plen)), ('ones', b'\xff' * plen)]
         payloads += [('random', bytes(rng.randrange(256) for _ in range(plen))) for _ in range(k_random)]
+        if plen >= len(bp):     # payloads that contain the kind's own binary prefix bytes (at the start / inside): still just payload
+            r0 = payloads[2][1] if k_random else bytes(plen)
+            mid = (plen - len(bp)) // 2
+            payloads.append(('own-prefix-at-start', bytes(bp) + r0[len(bp):]))
+            payloads.append(('own-prefix-inside', r0[:mid] + bytes(bp) + r0[mid + len(bp):]))
         for cls, p in payloads:
             ck = b58ref.cksum(bp + p)
             cases.append((('enc', tuple(hp), tuple(p), tuple(ck)), {'kind': 'enc', 'row': i, 'cls': cls, 'payload': p}))
@@ -220,7 +225,7 @@ def run(ctx):
     classes = ['zero', 'ones'] if ctx.quick else ['zero', 'ones', 'zero-ff', 'ones-00', 'low', 'high', 'mid']
     ctx.rule = ('kind table read from the running code (%d rows); Leg A: TLC encodes, per row, the payload/checksum classes %s and every concrete case three digits per step and '
                 'checks the end points, the shape of every encoding, invertibility and that the (length, human prefix) decoder accepts exactly the encodings; '
-                'Leg B: per row payloads {zeros, ones, %d seeded random} are encoded and 12 corruption classes of %d valid text(s) per row are decoded by the model, the checksum '
+                'Leg B: per row payloads {zeros, ones, %d seeded random, two containing the binary prefix of their own kind} are encoded and 12 corruption classes of %d valid text(s) per row are decoded by the model, the checksum '
                 'is interpreted with hashlib, and base58_encode / base58_decode / is_* are compared with the model; non-trivial = every case (distinct row x payload / text)'
                 % (len(tbl), classes, k_random, k_corrupt))
     ctx.assumptions = ['Cksum is uninterpreted in the spec and interpreted by hashlib sha256(sha256(.))[:4] in the harness',
